@@ -738,3 +738,55 @@ theorem extract_packetBody (payload padding : Bytes) (h1 : 1 ≤ padding.length)
   simp
 
 end AsyncsshModel.Transport
+
+namespace AsyncsshModel.Transport
+open AsyncsshModel
+
+theorem rfcStream_length (H : Bytes → Bytes) (k h x sid : Bytes) (d : Nat) (hd : ∀ m, (H m).length = d) (n : Nat) :
+    (rfcStream H k h x sid n).length = n * d := by
+  induction n with
+  | zero => simp [rfcStream]
+  | succ n ih => simp only [rfcStream, List.length_append, ih, hd]; rw [Nat.succ_mul]
+
+/-- the loop, started on `n` RFC blocks, ends on some whole number of RFC blocks covering `keylen` -/
+theorem ckLoop_rfc (H : Bytes → Bytes) (k h x sid : Bytes) (d : Nat) (hd : ∀ m, (H m).length = d) (hpos : 0 < d)
+    (keylen fuel n : Nat) (hfuel : keylen ≤ n * d + fuel) :
+    ∃ m, n ≤ m ∧ ckLoop H k h x sid keylen fuel (rfcStream H k h x sid n) = rfcStream H k h x sid m ∧
+      keylen ≤ m * d := by
+  induction fuel generalizing n with
+  | zero => exact ⟨n, Nat.le_refl _, rfl, by omega⟩
+  | succ f ih =>
+    unfold ckLoop
+    have hl := rfcStream_length H k h x sid d hd n
+    split
+    · rename_i hlt
+      have hstep : rfcStream H k h x sid n ++
+          H (k ++ h ++ (if (rfcStream H k h x sid n).isEmpty then x ++ sid else rfcStream H k h x sid n)) =
+          rfcStream H k h x sid (n + 1) := by
+        simp only [rfcStream]
+        congr 3
+        by_cases hn : n = 0
+        · subst hn; simp [rfcStream]
+        · have : (rfcStream H k h x sid n).isEmpty = false := by
+            rw [List.isEmpty_eq_false_iff_exists_mem]
+            have : 0 < (rfcStream H k h x sid n).length := by
+              rw [hl]; exact Nat.mul_pos (Nat.pos_of_ne_zero hn) hpos
+            exact List.exists_mem_of_length_pos this
+          simp [this, hn]
+      rw [hstep]
+      obtain ⟨m, hm1, hm2, hm3⟩ := ih (n + 1) (by rw [Nat.succ_mul]; omega)
+      exact ⟨m, by omega, hm2, hm3⟩
+    · rename_i hge
+      exact ⟨n, Nat.le_refl _, rfl, by rw [hl] at hge; omega⟩
+
+theorem rfcStream_prefix (H : Bytes → Bytes) (k h x sid : Bytes) (n m : Nat) (h' : n ≤ m) :
+    rfcStream H k h x sid n <+: rfcStream H k h x sid m := by
+  induction m with
+  | zero => have : n = 0 := by omega
+            subst this; exact List.prefix_refl _
+  | succ m ih =>
+    by_cases hn : n = m + 1
+    · subst hn; exact List.prefix_refl _
+    · exact List.IsPrefix.trans (ih (by omega)) (by simp only [rfcStream]; exact List.prefix_append _ _)
+
+end AsyncsshModel.Transport
